@@ -14,9 +14,11 @@ type c12Stream struct {
 	complete int
 	late     bool
 	bytes    []byte
+	calls    int
 }
 
 func (s *c12Stream) Reassembled(rs []Reassembly) {
+	s.calls++
 	s.f.enter()
 	if s.complete > 0 {
 		s.late = true
@@ -38,6 +40,7 @@ type c12Factory struct {
 	in      map[*c12Stream]bool
 	overlap bool
 	depth   int
+	meet    chan bool // non-nil: the two factory calls wait for each other
 }
 
 func (f *c12Factory) enter() {}
@@ -46,7 +49,16 @@ func (f *c12Factory) leave() {}
 func (f *c12Factory) New(n, t gopacket.Flow) Stream {
 	s := &c12Stream{f: f}
 	f.streams = append(f.streams, s)
-	verifYield() // the callback runs between dropping the read lock and taking the write lock
+	if f.meet != nil {
+		// both assemblers have missed the lookup before either inserts: this
+		// pins the racing-first-packets schedule down for the native replay too
+		select {
+		case f.meet <- true:
+		case <-f.meet:
+		}
+	} else {
+		verifYield() // the callback runs between dropping the read lock and taking the write lock
+	}
 	return s
 }
 
@@ -56,6 +68,9 @@ var c12Net2 = gopacket.NewFlow(layers.EndpointIPv4, []byte{9, 9, 9, 9}, []byte{5
 func verif_C12_two_assemblers() {
 	verifPreemptBound(verifParam("preempt"))
 	f := &c12Factory{}
+	if verifChoose(2) == 0 { // explored first, so that a counterexample is found in the natively reproducible mode
+		f.meet = make(chan bool)
+	}
 	pool := NewStreamPool(f)
 	a1, a2 := NewAssembler(pool), NewAssembler(pool)
 	ts := time.Unix(50, 0)
@@ -92,6 +107,7 @@ func verif_C12_two_assemblers() {
 			verifAssert(s.complete == 1, "every kept stream is completed exactly once")
 		} else {
 			verifAssert(s.complete == 0, "a stream that was not kept gets no callbacks")
+			verifAssert(s.calls == 0, "a stream that was not kept receives no deliveries")
 			verifAssert(len(s.bytes) == 0, "a stream that was not kept receives no data")
 		}
 	}
